@@ -619,6 +619,7 @@ func (x *exec) applyContract(st *State, fr *Frame, ins ssa.Instruction, ci calle
 		st.assume(g)
 	}
 	pre := st.snapshot()
+	preFacts := len(pre.pc)
 	x.recordEventVals(st, ins, ci.key, kind, args, names)
 	st.trace[len(st.trace)-1].Quiet = fs.Pure || fs.Silent
 	// frame
@@ -732,6 +733,11 @@ func (x *exec) applyContract(st *State, fr *Frame, ins ssa.Instruction, ci calle
 	}
 	if ev := st.trace; len(ev) > 0 && ev[len(ev)-1].Site == ins {
 		ev[len(ev)-1].Rets = rets
+	}
+	// facts learnt about values of the pre-state while the contract was evaluated (allocation stamps, shapes of loaded
+	// values) hold on this path
+	for _, f := range pre.pc[preFacts:] {
+		st.assume(f)
 	}
 	x.reenterHavoc(st, fr, ins, ci)
 	k(st, rets)
